@@ -2,7 +2,11 @@
 //! generated cases and writes (a) the cases for the Coq-extracted model driver and (b) what the
 //! implementation answered, one line per observation.
 mod prng;
+mod wire;
+mod c01;
 mod c05;
+mod c06;
+mod c10;
 
 use std::io::Write;
 
@@ -45,7 +49,10 @@ fn main() {
     // silence panic messages of caught panics (they are reported as PANIC observations)
     std::panic::set_hook(Box::new(|_| {}));
     match comp.as_str() {
+        "c01" => c01::run(&a, &mut out),
         "c05" => c05::run(&a, &mut out),
+        "c06" => c06::run(&a, &mut out),
+        "c10" => c10::run(&a, &mut out),
         x => { eprintln!("unknown component {}", x); std::process::exit(2); }
     }
     out.cases.flush().unwrap();
